@@ -17,8 +17,11 @@ def sh(cmd, cwd=None, env=None, timeout=3600):
     return p.returncode, p.stdout.decode(errors="replace")
 
 
+MUT_BASE = os.environ.get("MUT_BASE", "/tmp/mut")
+
+
 def deliver(pid, v):
-    return f"/tmp/mut/{pid}/DELIVER/{v}"
+    return f"{MUT_BASE}/{pid}/DELIVER/{v}"
 
 
 def demo_info(pid, v):
@@ -56,7 +59,7 @@ def clean(wt):
 
 
 def confirm(pid, v):
-    wt = f"/tmp/mut/{pid}"
+    wt = f"{MUT_BASE}/{pid}"
     res = {"id": f"{pid}-{v}"}
     clean(wt)
     dest, run, pkg = demo_info(pid, v)
@@ -65,7 +68,8 @@ def confirm(pid, v):
         res["error"] = "cannot parse demo placement"
         return res
     tmp = tempfile.mkdtemp(prefix=f"confirm-{pid}{v}-", dir="/tmp")
-    env = dict(ENV, TMPDIR=tmp)
+    os.makedirs(tmp + "/home", exist_ok=True)
+    env = dict(ENV, TMPDIR=tmp, HOME=tmp + "/home")
     shutil.copy(os.path.join(deliver(pid, v), "demo_test.go"), os.path.join(wt, dest))
     rc0, out0 = sh(f"go test -vet=off -count=1 -run '{run}' {pkg}", cwd=wt, env=env)
     res["demo_on_clean_tree"] = "pass" if rc0 == 0 else "FAIL"
@@ -115,8 +119,8 @@ def detect(pid, v, checks, tier="quick", seed="1"):
     return results
 
 
-def keep(pid, v, meta):
-    d = f"/verif/seeded/{pid}-{v}"
+def keep(pid, v, meta, suffix=""):
+    d = f"/verif/seeded/{pid}-{suffix}{v}"
     os.makedirs(d, exist_ok=True)
     for f in ("patch.diff", "demo_test.go", "README.md"):
         p = os.path.join(deliver(pid, v), f)
